@@ -335,7 +335,7 @@ func (m *model) Layout(W float64) (lines []Line, guard string) {
 				_ = inBox
 				// finding D12: the preserved-line-break flag of a child that is then moved to the
 				// next line stays set, and the line is not justified
-				if f && m.p.Align == "justify" {
+				if m.p.Align == "justify" && m.forcedAhead(end) {
 					guards["D12"] = true
 				}
 				// finding D16: when the rest of an inline box fits without its end spacing but not
@@ -396,6 +396,41 @@ func (m *model) Layout(W float64) (lines []Line, guard string) {
 		}
 	}
 	return lines, ""
+}
+
+// forcedAhead reports the D12 configuration: the content rejected at a soft break before items[p] is
+// tried on the full line first, child after child, until a text needs a second line; a forced break
+// met during that attempt leaves its flag on the line.  The walk follows the units after p while each
+// ends its text node (or is an atomic inline).
+func (m *model) forcedAhead(p int) bool {
+	for n := 0; n < 8 && p < len(m.items); n++ {
+		q, f := m.unitEnd(p)
+		if f {
+			return true
+		}
+		// last character of the unit
+		last := -1
+		for i := q - 1; i >= p; i-- {
+			if m.items[i].k == 'c' {
+				last = i
+				break
+			}
+			if m.items[i].k == 'a' {
+				break
+			}
+		}
+		if last >= 0 {
+			j := m.nextContent(last + 1)
+			if j < len(m.items) && m.items[j].k == 'c' && m.items[j].tn == m.items[last].tn {
+				return false // the text continues: it is split and the attempt ends
+			}
+			if j < len(m.items) && m.items[j].k == 'n' && m.items[j].tn == m.items[last].tn {
+				return true
+			}
+		}
+		p = q
+	}
+	return false
 }
 
 // endSpacingResplit reports the D16 configuration at a soft break before items[end]: an end edge
